@@ -511,6 +511,13 @@ func (wd *world) opTick(force string) {
 		d = time.Duration(2+r.Intn(6)) * wd.cfg.block
 	case "long":
 		d = wd.cfg.trust/2 + time.Duration(r.Intn(int(wd.cfg.trust/time.Second)))*time.Second
+	case "before_expiry": // half a second before the subjective head expires
+		d = wd.cfg.block
+		if wd.est != nil {
+			if x := wd.est.T + int64(wd.cfg.trust) - int64(500*time.Millisecond) - now; x > 0 {
+				d = time.Duration(x)
+			}
+		}
 	case "recency_edge", "expiry_edge":
 		if wd.est == nil {
 			d = wd.cfg.block
@@ -766,9 +773,29 @@ func (wd *world) opSched(force string) {
 		acts = append(acts, fmt.Sprintf("ATick %d", int64(d)))
 		dsc = append(dsc, "tick("+d.String()+")")
 	}
+	tickD := func(d time.Duration) {
+		elapsed += d
+		time.Sleep(d)
+		synctest.Wait()
+		acts = append(acts, fmt.Sprintf("ATick %d", int64(d)))
+		dsc = append(dsc, "tick("+d.String()+")")
+	}
 	gk := []string{"next", "ahead", "tip", "lower"}
 	steps := 3 + r.Intn(6)
-	call()
+	if force == "x3a" {
+		// candidate finding F31 (Props/C19_more.v): caller 0 opens the flight with the (stale, not yet expired)
+		// subjective head as trusted head; the clock passes the expiry while the flight is open; caller 1 decides
+		// (re)initialisation and joins that flight; the answer comes and both take it
+		steps = 0
+		force = "fresh"
+		call()
+		tickD(time.Second)
+		call()
+		answer(force)
+		wd.w.Count("sched_f31_witness", fmt.Sprintf("callers=%d blocked_after=%d", ncall, blockedNow()))
+	} else {
+		call()
+	}
 	for i := 0; i < steps; i++ {
 		x := r.Intn(100)
 		switch {
@@ -1050,6 +1077,9 @@ func TestC19(t *testing.T) {
 		{"head:fresh", "tick:blocks", "head:soft_next", "tick:blocks", "head:next", "gossip:same", "head:fail"},
 		// callers, gossip and answers interleaved while a flight is open
 		{"head:fresh", "tick:blocks", "sched:between", "head:fail", "tick:blocks", "sched:lower", "head:fail", "tick:blocks", "sched:", "head:fail"},
+		// candidate finding F31: the subjective head expires while a stale-head flight is open; a second caller
+		// (re)initialises off that flight's answer
+		{"head:fresh", "tick:before_expiry", "sched:x3a", "head:fail"},
 	}
 	n := 0
 	for _, init := range initials {
